@@ -179,10 +179,11 @@ ParsedNc(objs) ==
         [objs[j] EXCEPT !.nc = IF objs[j].k \in {"circle", "slider"} THEN (@ \/ j = 1 \/ objs[j - 1].k = "spinner")
                                ELSE IF objs[j].k = "spinner" THEN @ ELSE FALSE]]
 
-Post(i) ==
-    LET cp == CpOf(i)
-        s1 == Sweep(SortStable(ParsedNc(i.objs), <<>>), i.breaks, 1, <<>>)
-    IN [j \in 1..Len(s1) |-> PostOne(s1[j], cp, i.sm, i.mode)]
+\* the processing for given control points (SectionFlow.tla supplies its own)
+PostWith(objs, breaks, sm, mode, cp) ==
+    LET s1 == Sweep(SortStable(ParsedNc(objs), <<>>), breaks, 1, <<>>)
+    IN [j \in 1..Len(s1) |-> PostOne(s1[j], cp, sm, mode)]
+Post(i) == PostWith(i.objs, i.breaks, i.sm, i.mode, CpOf(i))
 
 \* ---- shifting every time of the input by k milliseconds -----------------------------
 ShiftIn(i, k) ==
